@@ -13,107 +13,326 @@ variable {σ ο : Type}
 
 /-! ### agreement on the seeded part of the state -/
 
-/-- two states coincide on `py`, `np` and the spawned handles, and — when `e` — on the caller's
-    own generators; `os` is unconstrained -/
-structure Agree (e : Bool) (a b : St σ) : Prop where
+/-- the objects of two states relative to the abstract object list `h`: same handles (as recorded in
+    `h`), same liveness, and equal private state wherever `h` says it is clean -/
+structure ObjsRel (h : List AObj) (xs ys : List (ObjSt σ)) : Prop where
+  lenx : xs.length = h.length
+  leny : ys.length = h.length
+  rel : ∀ (k : Nat) (x y : ObjSt σ) (a : AObj), xs[k]? = some x → ys[k]? = some y → h[k]? = some a →
+    x.arg = a.arg ∧ y.arg = a.arg ∧ x.alive = y.alive ∧ (a.clean = true → x.priv = y.priv)
+
+/-- two states coincide on `py`, `np` and the spawned handles, — when `e` — on the caller's
+    own generators, and on the objects as far as `h` says; `os` is unconstrained -/
+structure Agree (e t : Bool) (h : List AObj) (a b : St σ) : Prop where
   py : a.py = b.py
   np : a.np = b.np
   spawned : a.spawned = b.spawned
   ext : e = true → a.ext = b.ext
-
-theorem Agree.refl (e : Bool) (a : St σ) : Agree e a a := ⟨rfl, rfl, rfl, fun _ => rfl⟩
+  /-- (only tracked when the program names existing objects: `t`) -/
+  objs : t = true → ObjsRel h a.objs b.objs
 
 /-- agreement of two results of `run`/`step`/`call`: both fail, or equal outputs and agreeing states -/
-def ResAgree {β : Type} (e : Bool) : Option (β × St σ) → Option (β × St σ) → Prop
+def ResAgree {β : Type} (e t : Bool) (h : List AObj) : Option (β × St σ) → Option (β × St σ) → Prop
   | none, none => True
-  | some x, some y => x.1 = y.1 ∧ Agree e x.2 y.2
+  | some x, some y => x.1 = y.1 ∧ Agree e t h x.2 y.2
   | _, _ => False
 
-theorem ResAgree.map_fst {β : Type} {e : Bool} {x y : Option (β × St σ)} (h : ResAgree e x y) :
-    x.map Prod.fst = y.map Prod.fst := by
+theorem ResAgree.map_fst {β : Type} {e t : Bool} {h : List AObj} {x y : Option (β × St σ)}
+    (hr : ResAgree e t h x y) : x.map Prod.fst = y.map Prod.fst := by
   cases x <;> cases y <;> simp_all [ResAgree]
 
-def RngArg.isExt : RngArg → Bool
-  | .ext _ => true
-  | _ => false
-
-theorem getGen_agree {e : Bool} {a b : St σ} (h : Agree e a b) (arg : RngArg)
+theorem getGen_agree {e t : Bool} {h : List AObj} {a b : St σ} (hab : Agree e t h a b) (arg : RngArg)
     (he : arg.isExt = true → e = true) : getGen a arg = getGen b arg := by
   cases arg with
   | glob => rfl
-  | ext k => simp [getGen, h.ext (he rfl)]
-  | spawned k => simp [getGen, h.spawned]
+  | ext k => simp [getGen, hab.ext (he rfl)]
+  | spawned k => simp [getGen, hab.spawned]
 
-theorem putGen_agree {e : Bool} {a b : St σ} (h : Agree e a b) (arg : RngArg)
-    (he : arg.isExt = true → e = true) (g : σ) : Agree e (putGen a arg g) (putGen b arg g) := by
+theorem putGen_objs (st : St σ) (arg : RngArg) (g : σ) : (putGen st arg g).objs = st.objs := by
+  cases arg <;> rfl
+
+theorem putGen_agree {e t : Bool} {h : List AObj} {a b : St σ} (hab : Agree e t h a b) (arg : RngArg)
+    (he : arg.isExt = true → e = true) (g : σ) : Agree e t h (putGen a arg g) (putGen b arg g) := by
   cases arg with
-  | glob => exact h
+  | glob => exact hab
   | ext k =>
-    refine ⟨h.py, h.np, h.spawned, fun he' => ?_⟩
-    simp [putGen, h.ext he']
+    refine ⟨hab.py, hab.np, hab.spawned, fun he' => ?_, hab.objs⟩
+    simp [putGen, hab.ext he']
   | spawned k =>
-    refine ⟨h.py, h.np, ?_, h.ext⟩
-    simp [putGen, h.spawned]
+    refine ⟨hab.py, hab.np, ?_, hab.ext, hab.objs⟩
+    simp [putGen, hab.spawned]
 
-/-- **Key lemma.**  A component that does not read an unseeded source cannot tell two agreeing
-    states apart, and leaves them agreeing. -/
-theorem call_agree {e : Bool} (c : Comp σ ο) (arg : RngArg) (hos : c.deps.os = false)
-    (he : arg.isExt = true → e = true) {a b : St σ} (h : Agree e a b) :
-    ResAgree e (call c arg a) (call c arg b) := by
-  unfold call
-  rw [← getGen_agree h arg he]
+/-- **Key lemma.**  A function of a view that does not contain an unseeded source cannot tell two
+    agreeing states apart, and leaves them agreeing (objects are not touched). -/
+theorem withView_agree {α : Type} {e t : Bool} {h : List AObj} (d : Deps) (f : View σ → α × View σ)
+    (arg : RngArg) (hos : d.os = false) (he : arg.isExt = true → e = true) {a b : St σ}
+    (hab : Agree e t h a b) : ResAgree e t h (withView d f arg a) (withView d f arg b) := by
+  unfold withView
+  rw [← getGen_agree hab arg he]
   cases hg : getGen a arg with
   | none => simp [ResAgree]
   | some gen =>
-    simp only [hos, sel, upd, h.py, h.np]
+    simp only [hos, sel, upd, hab.py, hab.np]
     cases gen with
     | none =>
       simp only [ResAgree, Bool.false_eq_true, if_false, true_and]
-      exact ⟨by simp, by simp, h.spawned, h.ext⟩
+      exact ⟨by simp, by simp, hab.spawned, hab.ext, hab.objs⟩
     | some g =>
       simp only [ResAgree, Bool.false_eq_true, if_false, true_and]
-      by_cases hr : c.deps.rng = true
+      by_cases hr : d.rng = true
       · simp only [hr, if_true]
         apply putGen_agree _ arg he
-        exact ⟨by simp, by simp, h.spawned, h.ext⟩
+        exact ⟨by simp, by simp, hab.spawned, hab.ext, hab.objs⟩
       · simp only [hr]
-        exact ⟨by simp, by simp, h.spawned, h.ext⟩
+        exact ⟨by simp, by simp, hab.spawned, hab.ext, hab.objs⟩
 
-/-- `seed` makes any two states agree (given the caller's own generators agree, if they matter) -/
-theorem seed_agree (P : Prim σ) (s : Nat) (e : Bool) (a b : St σ) (hext : e = true → a.ext = b.ext) :
-    Agree e (seed P s a) (seed P s b) :=
-  ⟨rfl, rfl, rfl, hext⟩
+theorem call_agree {e t : Bool} {h : List AObj} (c : Comp σ ο) (arg : RngArg) (hos : c.deps.os = false)
+    (he : arg.isExt = true → e = true) {a b : St σ} (hab : Agree e t h a b) :
+    ResAgree e t h (call c arg a) (call c arg b) :=
+  withView_agree c.deps c.sem arg hos he hab
 
-theorem spawn_agree (P : Prim σ) (n : Nat) {e : Bool} {a b : St σ} (h : Agree e a b) :
-    (spawn P n a).1 = (spawn P n b).1 ∧ Agree e (spawn P n a).2 (spawn P n b).2 := by
+/-- the objects after a re-seeding: handles to spawned generators die in both states alike -/
+theorem objsRel_reseed {h : List AObj} {xs ys : List (ObjSt σ)} (hr : ObjsRel h xs ys) :
+    ObjsRel h (xs.map ObjSt.reseed) (ys.map ObjSt.reseed) := by
+  refine ⟨by simp [hr.lenx], by simp [hr.leny], ?_⟩
+  intro k x y a hx hy ha
+  simp only [List.getElem?_map, Option.map_eq_some_iff] at hx hy
+  obtain ⟨x0, hx0, rfl⟩ := hx
+  obtain ⟨y0, hy0, rfl⟩ := hy
+  obtain ⟨h1, h2, h3, h4⟩ := hr.rel k x0 y0 a hx0 hy0 ha
+  refine ⟨h1, h2, ?_, h4⟩
+  simp [ObjSt.reseed, h3, h1, h2]
+
+/-- `seed` makes any two states agree on the streams (given the caller's own generators agree, if
+    they matter); the objects keep whatever relation they had -/
+theorem seed_agree (P : Prim σ) (s : Nat) (e t : Bool) (h : List AObj) (a b : St σ)
+    (hext : e = true → a.ext = b.ext) (hobj : t = true → ObjsRel h a.objs b.objs) :
+    Agree e t h (seed P s a) (seed P s b) :=
+  ⟨rfl, rfl, rfl, hext, fun ht => objsRel_reseed (hobj ht)⟩
+
+theorem spawn_agree (P : Prim σ) (n : Nat) {e t : Bool} {h : List AObj} {a b : St σ} (hab : Agree e t h a b) :
+    (spawn P n a).1 = (spawn P n b).1 ∧ Agree e t h (spawn P n a).2 (spawn P n b).2 := by
   unfold spawn
-  simp only [h.py, h.spawned, true_and]
-  exact ⟨rfl, h.np, rfl, h.ext⟩
+  simp only [hab.py, hab.spawned, true_and]
+  exact ⟨rfl, hab.np, rfl, hab.ext, hab.objs⟩
 
-theorem step_agree (P : Prim σ) {e : Bool} (op : Op σ ο) (hos : op.readsOS = false)
-    (he : op.usesExt = true → e = true) {a b : St σ} (h : Agree e a b) :
-    ResAgree e (step P op a) (step P op b) := by
+/-! #### objects: construction, re-assignment of the generator, method calls -/
+
+theorem objsRel_append {h : List AObj} {xs ys : List (ObjSt σ)} (hr : ObjsRel h xs ys)
+    (arg : RngArg) (p : σ) :
+    ObjsRel (h ++ [⟨arg, true⟩]) (xs ++ [⟨arg, true, p⟩]) (ys ++ [⟨arg, true, p⟩]) := by
+  refine ⟨by simp [hr.lenx], by simp [hr.leny], ?_⟩
+  intro k x y a hx hy ha
+  by_cases hk : k < h.length
+  · rw [List.getElem?_append_left (by rw [hr.lenx]; exact hk)] at hx
+    rw [List.getElem?_append_left (by rw [hr.leny]; exact hk)] at hy
+    rw [List.getElem?_append_left hk] at ha
+    exact hr.rel k x y a hx hy ha
+  · have hk' : h.length ≤ k := Nat.le_of_not_lt hk
+    rw [List.getElem?_append_right (by rw [hr.lenx]; exact hk')] at hx
+    rw [List.getElem?_append_right (by rw [hr.leny]; exact hk')] at hy
+    rw [List.getElem?_append_right hk'] at ha
+    rw [hr.lenx] at hx
+    rw [hr.leny] at hy
+    cases hd : k - h.length with
+    | zero =>
+      simp only [hd, List.getElem?_cons_zero, Option.some.injEq] at hx hy ha
+      subst hx; subst hy; subst ha
+      exact ⟨rfl, rfl, rfl, fun _ => rfl⟩
+    | succ n => simp [hd] at ha
+
+theorem objsRel_set {h : List AObj} {xs ys : List (ObjSt σ)} (hr : ObjsRel h xs ys)
+    (k : Nat) (a' : AObj) (x' y' : ObjSt σ)
+    (hn : x'.arg = a'.arg ∧ y'.arg = a'.arg ∧ x'.alive = y'.alive ∧ (a'.clean = true → x'.priv = y'.priv)) :
+    ObjsRel (h.set k a') (xs.set k x') (ys.set k y') := by
+  refine ⟨by simp [hr.lenx], by simp [hr.leny], ?_⟩
+  intro j x y a hx hy ha
+  by_cases hjk : k = j
+  · subst hjk
+    by_cases hk : k < h.length
+    · rw [List.getElem?_set_self (by rw [hr.lenx]; exact hk)] at hx
+      rw [List.getElem?_set_self (by rw [hr.leny]; exact hk)] at hy
+      rw [List.getElem?_set_self hk] at ha
+      simp only [Option.some.injEq] at hx hy ha
+      subst hx; subst hy; subst ha
+      exact hn
+    · have : (h.set k a')[k]? = none := by
+        rw [List.getElem?_eq_none_iff]; simp; omega
+      rw [this] at ha; cases ha
+  · rw [List.getElem?_set_ne hjk] at hx hy ha
+    exact hr.rel j x y a hx hy ha
+
+theorem withView_objs {α : Type} (d : Deps) (f : View σ → α × View σ) (arg : RngArg) (st : St σ)
+    (r : α × St σ) (hw : withView d f arg st = some r) : r.2.objs = st.objs := by
+  unfold withView at hw
+  cases hg : getGen st arg with
+  | none => simp [hg] at hw
+  | some gen =>
+    simp only [hg, Option.some.injEq] at hw
+    subst hw
+    cases gen with
+    | none => rfl
+    | some g =>
+      by_cases hr : d.rng = true
+      · simp only [hr, if_true, putGen_objs]
+      · simp only [hr]; rfl
+
+theorem new_agree {e t : Bool} {h : List AObj} (c : Cls σ ο) (arg : RngArg) (hos : c.ctorDeps.os = false)
+    (he : arg.isExt = true → e = true) {a b : St σ} (hab : Agree e t h a b) :
+    ResAgree e t (h ++ [⟨arg, true⟩]) (new c arg a) (new c arg b) := by
+  have hw := withView_agree c.ctorDeps c.ctor arg hos he hab
+  unfold new
+  cases hwa : withView c.ctorDeps c.ctor arg a with
+  | none => cases hwb : withView c.ctorDeps c.ctor arg b <;> simp_all [ResAgree]
+  | some x =>
+    cases hwb : withView c.ctorDeps c.ctor arg b with
+    | none => simp_all [ResAgree]
+    | some y =>
+      rw [hwa, hwb] at hw
+      obtain ⟨ho, hst⟩ := hw
+      simp only [Option.map_some, ResAgree]
+      refine ⟨by rw [ho], hst.py, hst.np, hst.spawned, hst.ext, fun ht => ?_⟩
+      have := objsRel_append (hst.objs ht) arg x.1.2
+      rw [ho]
+      rw [ho] at this
+      exact this
+
+theorem setRng_agree {e t : Bool} {h : List AObj} (c : Cls σ ο) (k : Nat) (arg : RngArg)
+    (hos : c.ctorDeps.os = false) (he : arg.isExt = true → e = true) (ht : t = true) {a b : St σ}
+    (hab : Agree e t h a b) :
+    ResAgree e t (h.set k ⟨arg, true⟩) (setRng c k arg a) (setRng c k arg b) := by
+  have hw := withView_agree c.ctorDeps c.ctor arg hos he hab
+  unfold setRng
+  rw [(hab.objs ht).lenx, (hab.objs ht).leny]
+  by_cases hk : k < h.length
+  · simp only [hk, if_true]
+    cases hwa : withView c.ctorDeps c.ctor arg a with
+    | none => cases hwb : withView c.ctorDeps c.ctor arg b <;> simp_all [ResAgree]
+    | some x =>
+      cases hwb : withView c.ctorDeps c.ctor arg b with
+      | none => simp_all [ResAgree]
+      | some y =>
+        rw [hwa, hwb] at hw
+        obtain ⟨ho, hst⟩ := hw
+        simp only [Option.map_some, ResAgree]
+        refine ⟨by rw [ho], hst.py, hst.np, hst.spawned, hst.ext, fun ht' => ?_⟩
+        exact objsRel_set (hst.objs ht') k ⟨arg, true⟩ _ _ ⟨rfl, rfl, rfl, fun _ => by rw [ho]⟩
+  · simp [hk, ResAgree]
+
+theorem use_agree {e t : Bool} {h : List AObj} (c : Cls σ ο) (k : Nat) (hos : c.deps.os = false)
+    (hcl : Op.cleanUse h (Op.use c k : Op σ ο) = true)
+    (he : Op.extUse h (Op.use c k : Op σ ο) = true → e = true) (ht : t = true) {a b : St σ}
+    (hab : Agree e t h a b) :
+    ResAgree e t h (use c k a) (use c k b) := by
+  have hobjs := hab.objs ht
+  unfold use
+  by_cases hk : k < h.length
+  · have hka : k < a.objs.length := by rw [hobjs.lenx]; exact hk
+    have hkb : k < b.objs.length := by rw [hobjs.leny]; exact hk
+    have hxa : a.objs[k]? = some a.objs[k] := List.getElem?_eq_getElem hka
+    have hxb : b.objs[k]? = some b.objs[k] := List.getElem?_eq_getElem hkb
+    have hha : h[k]? = some h[k] := List.getElem?_eq_getElem hk
+    obtain ⟨h1, h2, h3, h4⟩ := hobjs.rel k _ _ _ hxa hxb hha
+    rw [hxa, hxb]
+    simp only []
+    rw [← h3]
+    cases hal : a.objs[k].alive with
+    | false => simp [ResAgree]
+    | true =>
+      simp only [if_true]
+      have hpriv : sel c.cached a.objs[k].priv = sel c.cached b.objs[k].priv := by
+        cases hc : c.cached with
+        | false => simp [sel]
+        | true =>
+          simp only [Op.cleanUse, hc, Bool.not_true, Bool.false_or, hha, Option.map_some,
+            Option.getD_some] at hcl
+          simp [sel, h4 hcl]
+      have hea : a.objs[k].arg.isExt = true → e = true := by
+        intro hx
+        apply he
+        simp only [Op.extUse, hha, Option.map_some, Option.getD_some, ← h1, hx]
+      have hw := withView_agree c.deps (c.sem (sel c.cached a.objs[k].priv)) a.objs[k].arg hos hea hab
+      rw [← hpriv, h2, ← h1]
+      cases hwa : withView c.deps (c.sem (sel c.cached a.objs[k].priv)) a.objs[k].arg a with
+      | none =>
+        cases hwb : withView c.deps (c.sem (sel c.cached a.objs[k].priv)) a.objs[k].arg b <;>
+          simp_all [ResAgree]
+      | some x =>
+        cases hwb : withView c.deps (c.sem (sel c.cached a.objs[k].priv)) a.objs[k].arg b with
+        | none => simp_all [ResAgree]
+        | some y =>
+          rw [hwa, hwb] at hw
+          obtain ⟨ho, hst⟩ := hw
+          simp only [Option.map_some, ResAgree]
+          refine ⟨by rw [ho], hst.py, hst.np, hst.spawned, hst.ext, fun ht' => ?_⟩
+          have hset := objsRel_set (hst.objs ht') k h[k]
+            ⟨a.objs[k].arg, true, upd c.cached a.objs[k].priv x.1.2⟩
+            ⟨a.objs[k].arg, true, upd c.cached b.objs[k].priv y.1.2⟩
+            ⟨h1, h1, rfl, fun hc' => by
+              cases hc : c.cached with
+              | false => simp [upd, h4 hc']
+              | true => simp [upd, ho, h4 hc']⟩
+          rw [List.set_getElem_self] at hset
+          exact hset
+  · have hka : a.objs[k]? = none := by
+      rw [List.getElem?_eq_none_iff, hobjs.lenx]; omega
+    have hkb : b.objs[k]? = none := by
+      rw [List.getElem?_eq_none_iff, hobjs.leny]; omega
+    simp [hka, hkb, ResAgree]
+
+/-- what one operation needs so that two agreeing executions stay indistinguishable: a method
+    reading private state is called on clean objects only, and a reached caller generator agrees -/
+def Op.okAt (e : Bool) (h : List AObj) (op : Op σ ο) : Bool := op.cleanUse h && (!op.extUse h || e)
+
+theorem step_agree (P : Prim σ) {e t : Bool} {h : List AObj} (op : Op σ ο) (hos : op.readsOS = false)
+    (hok : op.okAt e h = true) (htr : op.usesObj = true → t = true) {a b : St σ} (hab : Agree e t h a b) :
+    ResAgree e t (absStep op h) (step P op a) (step P op b) := by
+  simp only [Op.okAt, Bool.and_eq_true, Bool.or_eq_true, Bool.not_eq_true'] at hok
+  obtain ⟨hcl, hex⟩ := hok
+  have he : op.extUse h = true → e = true := by
+    intro hx; rcases hex with h0 | h0
+    · rw [hx] at h0; cases h0
+    · exact h0
   cases op with
-  | seed s => exact ⟨rfl, seed_agree P s e a b h.ext⟩
+  | seed s => exact ⟨rfl, seed_agree P s e t h a b hab.ext hab.objs⟩
   | spawn n =>
-    obtain ⟨h1, h2⟩ := spawn_agree P n h
+    obtain ⟨h1, h2⟩ := spawn_agree P n hab
     exact ⟨by simp [h1], h2⟩
   | call c arg =>
     have he' : arg.isExt = true → e = true := by
-      intro hx; apply he; cases arg <;> simp_all [Op.usesExt, RngArg.isExt]
-    have := call_agree c arg hos he' h
-    simp only [step]
+      intro hx; apply he; cases arg <;> simp_all [Op.extUse, RngArg.isExt]
+    have := call_agree c arg hos he' hab
+    simp only [step, absStep]
     cases hca : call c arg a <;> cases hcb : call c arg b <;> simp_all [ResAgree]
+  | new c arg =>
+    have he' : arg.isExt = true → e = true := by
+      intro hx; apply he; cases arg <;> simp_all [Op.extUse, RngArg.isExt]
+    have := new_agree c arg hos he' hab
+    simp only [step, absStep]
+    cases hca : new c arg a <;> cases hcb : new c arg b <;> simp_all [ResAgree]
+  | setrng c k arg =>
+    have he' : arg.isExt = true → e = true := by
+      intro hx; apply he; cases arg <;> simp_all [Op.extUse, RngArg.isExt]
+    have := setRng_agree c k arg hos he' (htr rfl) hab
+    simp only [step, absStep]
+    cases hca : setRng c k arg a <;> cases hcb : setRng c k arg b <;> simp_all [ResAgree]
+  | use c k =>
+    have := use_agree c k hos hcl he (htr rfl) hab
+    simp only [step, absStep]
+    cases hca : use c k a <;> cases hcb : use c k b <;> simp_all [ResAgree]
 
-theorem run_agree (P : Prim σ) {e : Bool} (prog : List (Op σ ο))
-    (hos : ∀ op ∈ prog, op.readsOS = false) (he : ∀ op ∈ prog, op.usesExt = true → e = true) :
-    ∀ {a b : St σ}, Agree e a b → ResAgree e (run P prog a) (run P prog b) := by
+theorem run_agree (P : Prim σ) {e t : Bool} (prog : List (Op σ ο))
+    (hos : ∀ op ∈ prog, op.readsOS = false) (htr : ∀ op ∈ prog, op.usesObj = true → t = true) :
+    ∀ {h : List AObj}, progAll (Op.okAt e) h prog = true →
+      ∀ {a b : St σ}, Agree e t h a b → ResAgree e t (absRun prog h) (run P prog a) (run P prog b) := by
   induction prog with
-  | nil => intro a b h; exact ⟨rfl, h⟩
+  | nil => intro h _ a b hab; exact ⟨rfl, hab⟩
   | cons op rest ih =>
-    intro a b h
-    have hs := step_agree P op (hos op (by simp)) (he op (by simp)) h
+    intro h hok a b hab
+    simp only [progAll, Bool.and_eq_true] at hok
+    have hs := step_agree P op (hos op (by simp)) hok.1 (htr op (by simp)) hab
     unfold run
+    simp only [absRun]
     revert hs
     cases hsa : step P op a with
     | none => cases hsb : step P op b <;> simp [ResAgree]
@@ -123,7 +342,7 @@ theorem run_agree (P : Prim σ) {e : Bool} (prog : List (Op σ ο))
       | some y =>
         intro hs
         obtain ⟨ho, hst⟩ := hs
-        have := ih (fun o ho' => hos o (by simp [ho'])) (fun o ho' => he o (by simp [ho'])) hst
+        have := ih (fun o ho' => hos o (by simp [ho'])) (fun o ho' => htr o (by simp [ho'])) hok.2 hst
         cases hra : run P rest x.2 <;> cases hrb : run P rest y.2 <;> simp_all [ResAgree]
 
 theorem run_seed_cons (P : Prim σ) (s : Nat) (prog : List (Op σ ο)) (st : St σ) :
@@ -132,13 +351,53 @@ theorem run_seed_cons (P : Prim σ) (s : Nat) (prog : List (Op σ ο)) (st : St 
   cases run P prog (seed P s st) <;> rfl
 
 /-- agreement after the seed step, whatever the two states were before -/
-theorem run_seed_agree (P : Prim σ) (s : Nat) (prog : List (Op σ ο)) (e : Bool)
-    (hos : ∀ op ∈ prog, op.readsOS = false) (he : ∀ op ∈ prog, op.usesExt = true → e = true)
-    (a b : St σ) (hext : e = true → a.ext = b.ext) :
-    ResAgree e (run P (.seed s :: prog) a) (run P (.seed s :: prog) b) := by
+theorem run_seed_agree (P : Prim σ) (s : Nat) (prog : List (Op σ ο)) (e t : Bool) (h : List AObj)
+    (hos : ∀ op ∈ prog, op.readsOS = false) (htr : ∀ op ∈ prog, op.usesObj = true → t = true)
+    (hok : progAll (Op.okAt e) h prog = true)
+    (a b : St σ) (hext : e = true → a.ext = b.ext) (hobj : t = true → ObjsRel h a.objs b.objs) :
+    ResAgree e t (absRun prog h) (run P (.seed s :: prog) a) (run P (.seed s :: prog) b) := by
   rw [run_seed_cons, run_seed_cons]
-  have := run_agree P prog hos he (seed_agree P s e a b hext)
+  have := run_agree P prog hos htr hok (seed_agree P s e t h a b hext hobj)
   cases hra : run P prog (seed P s a) <;> cases hrb : run P prog (seed P s b) <;> simp_all [ResAgree]
+
+/-- two states with the same object handles are related through `absOf` -/
+theorem objsRel_absOf {a b : St σ} (hh : a.objs.map ObjSt.handle = b.objs.map ObjSt.handle) :
+    ObjsRel (absOf a) a.objs b.objs := by
+  have hlen : a.objs.length = b.objs.length := by
+    have := congrArg List.length hh; simpa using this
+  refine ⟨by simp [absOf], by simp [absOf, hlen], ?_⟩
+  intro k x y ao hx hy ha
+  simp only [absOf, List.getElem?_map, hx, Option.map_some, Option.some.injEq] at ha
+  subst ha
+  have := congrArg (fun l => l[k]?) hh
+  simp only [List.getElem?_map, hx, hy, Option.map_some, Option.some.injEq, ObjSt.handle,
+    Prod.mk.injEq] at this
+  exact ⟨rfl, this.1.symm, this.2, fun hc => by cases hc⟩
+
+/-! #### combining the two program conditions -/
+
+theorem progAll_and (p q : List AObj → Op σ ο → Bool) (prog : List (Op σ ο)) :
+    ∀ h, progAll (fun h op => p h op && q h op) h prog = (progAll p h prog && progAll q h prog) := by
+  induction prog with
+  | nil => intro h; rfl
+  | cons op rest ih =>
+    intro h
+    simp only [progAll, ih]
+    cases p h op <;> cases q h op <;> simp
+
+theorem progAll_okAt_true (prog : List (Op σ ο)) (h : List AObj) :
+    progAll (Op.okAt true) h prog = progAll Op.cleanUse h prog := by
+  induction prog generalizing h with
+  | nil => rfl
+  | cons op rest ih => simp [progAll, Op.okAt, ih]
+
+theorem progAll_okAt_false (prog : List (Op σ ο)) (h : List AObj) :
+    progAll (Op.okAt false) h prog
+      = (progAll Op.cleanUse h prog && progAll (fun h op => !op.extUse h) h prog) := by
+  rw [← progAll_and]
+  induction prog generalizing h with
+  | nil => rfl
+  | cons op rest ih => simp [progAll, Op.okAt, ih]
 
 /-! ### running a concatenation -/
 
@@ -194,13 +453,13 @@ theorem putGen_np (st : St σ) (arg : RngArg) (g : σ) : (putGen st arg g).np = 
 theorem putGen_os (st : St σ) (arg : RngArg) (g : σ) : (putGen st arg g).os = st.os := by
   cases arg <;> rfl
 
-theorem call_frame (c : Comp σ ο) (arg : RngArg) (st st' : St σ) (o : ο)
-    (h : call c arg st = some (o, st')) :
-    (c.deps.py = false → st'.py = st.py)
-    ∧ (useNp c.deps arg.isGlob = false → st'.np = st.np)
-    ∧ (c.deps.os = false → st'.os = st.os)
-    ∧ ((c.deps.rng = false ∨ arg = .glob) → st'.ext = st.ext ∧ st'.spawned = st.spawned) := by
-  unfold call at h
+theorem withView_frame {α : Type} (d : Deps) (f : View σ → α × View σ) (arg : RngArg) (st st' : St σ) (o : α)
+    (h : withView d f arg st = some (o, st')) :
+    (d.py = false → st'.py = st.py)
+    ∧ (useNp d arg.isGlob = false → st'.np = st.np)
+    ∧ (d.os = false → st'.os = st.os)
+    ∧ ((d.rng = false ∨ arg = .glob) → st'.ext = st.ext ∧ st'.spawned = st.spawned) := by
+  unfold withView at h
   cases hg : getGen st arg with
   | none => simp [hg] at h
   | some gen =>
@@ -226,7 +485,7 @@ theorem call_frame (c : Comp σ ο) (arg : RngArg) (st st' : St σ) (o : ο)
       have hgl : arg.isGlob = false := by rw [← hglob]; rfl
       rw [hgl]
       simp only [Option.isNone_some]
-      by_cases hr : c.deps.rng = true
+      by_cases hr : d.rng = true
       · simp only [hr, if_true]
         refine ⟨fun hp => ?_, fun hn => ?_, fun ho => ?_, fun hor => ?_⟩
         · rw [putGen_py]; simp [upd, hp]
@@ -235,10 +494,18 @@ theorem call_frame (c : Comp σ ο) (arg : RngArg) (st st' : St σ) (o : ο)
         · rcases hor with hf | hgl'
           · exact absurd hf (by simp)
           · subst hgl'; simp [RngArg.isGlob] at hgl
-      · have hr' : c.deps.rng = false := by simpa using hr
+      · have hr' : d.rng = false := by simpa using hr
         simp only [hr', Bool.false_eq_true, if_false]
         exact ⟨fun hp => by simp [upd, hp], fun hn => by simp [upd, hn], fun ho => by simp [upd, ho],
           fun _ => by simp⟩
+
+theorem call_frame (c : Comp σ ο) (arg : RngArg) (st st' : St σ) (o : ο)
+    (h : call c arg st = some (o, st')) :
+    (c.deps.py = false → st'.py = st.py)
+    ∧ (useNp c.deps arg.isGlob = false → st'.np = st.np)
+    ∧ (c.deps.os = false → st'.os = st.os)
+    ∧ ((c.deps.rng = false ∨ arg = .glob) → st'.ext = st.ext ∧ st'.spawned = st.spawned) :=
+  withView_frame c.deps c.sem arg st st' o h
 
 /-! ### isolation: calls made with an explicit generator by rng-only components -/
 
@@ -261,10 +528,10 @@ theorem getGen_sameGens {a b : St σ} (h : SameGens a b) (arg : RngArg) : getGen
   | ext k => simp [getGen, h.1]
   | spawned k => simp [getGen, h.2]
 
-theorem call_iso (c : Comp σ ο) (arg : RngArg) (hng : arg.isGlob = false)
-    (hpy : c.deps.py = false) (hnp : c.deps.np = false) (hos : c.deps.os = false)
-    {a b : St σ} (h : SameGens a b) : ResIso a b (call c arg a) (call c arg b) := by
-  unfold call
+theorem withView_iso {α : Type} (d : Deps) (f : View σ → α × View σ) (arg : RngArg) (hng : arg.isGlob = false)
+    (hpy : d.py = false) (hnp : d.np = false) (hos : d.os = false)
+    {a b : St σ} (h : SameGens a b) : ResIso a b (withView d f arg a) (withView d f arg b) := by
+  unfold withView
   rw [← getGen_sameGens h arg]
   cases hg : getGen a arg with
   | none => simp [ResIso]
@@ -273,23 +540,31 @@ theorem call_iso (c : Comp σ ο) (arg : RngArg) (hng : arg.isGlob = false)
     | none =>
       cases arg <;> simp_all [getGen, RngArg.isGlob]
     | some g =>
-      have hun : useNp c.deps (some g).isNone = false := by simp [useNp, hnp]
+      have hun : useNp d (some g).isNone = false := by simp [useNp, hnp]
       simp only [hun, hpy, hos, sel, upd, ResIso, Bool.false_eq_true, if_false, true_and]
-      by_cases hr : c.deps.rng = true
+      by_cases hr : d.rng = true
       · simp only [hr, if_true, putGen_py, putGen_np, putGen_os, and_self, and_true]
         cases arg with
         | glob => simp [RngArg.isGlob] at hng
         | ext k => exact ⟨by simp [putGen, h.1], h.2⟩
         | spawned k => exact ⟨h.1, by simp [putGen, h.2]⟩
-      · have hr' : c.deps.rng = false := by simpa using hr
+      · have hr' : d.rng = false := by simpa using hr
         simp only [hr', Bool.false_eq_true, if_false]
         exact ⟨h, by simp, by simp⟩
+
+theorem call_iso (c : Comp σ ο) (arg : RngArg) (hng : arg.isGlob = false)
+    (hpy : c.deps.py = false) (hnp : c.deps.np = false) (hos : c.deps.os = false)
+    {a b : St σ} (h : SameGens a b) : ResIso a b (call c arg a) (call c arg b) :=
+  withView_iso c.deps c.sem arg hng hpy hnp hos h
 
 theorem step_iso (P : Prim σ) (op : Op σ ο) (hiso : op.isolatedCall = true) {a b : St σ}
     (h : SameGens a b) : ResIso a b (step P op a) (step P op b) := by
   cases op with
   | seed s => simp [Op.isolatedCall] at hiso
   | spawn n => simp [Op.isolatedCall] at hiso
+  | new c arg => simp [Op.isolatedCall] at hiso
+  | use c k => simp [Op.isolatedCall] at hiso
+  | setrng c k arg => simp [Op.isolatedCall] at hiso
   | call c arg =>
     simp only [Op.isolatedCall, Bool.and_eq_true, Bool.not_eq_true'] at hiso
     obtain ⟨⟨⟨hng, hpy⟩, hnp⟩, hos⟩ := hiso
@@ -318,10 +593,13 @@ theorem run_iso (P : Prim σ) (prog : List (Op σ ο)) (hiso : ∀ op ∈ prog, 
 
 /-! ### the call made with an explicit generator as a pure function of that generator -/
 
+/-- what a function of an rng-only view computes from the generator it is handed -/
+def pureView {α : Type} (d : Deps) (f : View σ → α × View σ) (g : σ) : α × σ :=
+  let r := f { rng := sel d.rng g, py := none, np := none, os := none }
+  (r.1, if d.rng then r.2.rng.getD g else g)
+
 /-- what an rng-only component computes from the generator it is handed -/
-def pureCall (c : Comp σ ο) (g : σ) : ο × σ :=
-  let r := c.sem { rng := sel c.deps.rng g, py := none, np := none, os := none }
-  (r.1, if c.deps.rng then r.2.rng.getD g else g)
+def pureCall (c : Comp σ ο) (g : σ) : ο × σ := pureView c.deps c.sem g
 
 theorem putGen_same (st : St σ) (arg : RngArg) (g : σ) (h : getGen st arg = some (some g)) :
     putGen st arg g = st := by
@@ -338,31 +616,37 @@ theorem putGen_same (st : St σ) (arg : RngArg) (g : σ) (h : getGen st arg = so
     obtain ⟨hlt, rfl⟩ := List.getElem?_eq_some_iff.mp hk
     simp [putGen]
 
-theorem call_explicit (c : Comp σ ο) (hpy : c.deps.py = false) (hnp : c.deps.np = false)
-    (hos : c.deps.os = false) (arg : RngArg) (hng : arg.isGlob = false) (st : St σ) :
-    call c arg st =
-      (getGen st arg).bind (fun gen => gen.map (fun g => ((pureCall c g).1, putGen st arg (pureCall c g).2))) := by
-  unfold call
+theorem withView_explicit {α : Type} (d : Deps) (f : View σ → α × View σ) (hpy : d.py = false) (hnp : d.np = false)
+    (hos : d.os = false) (arg : RngArg) (hng : arg.isGlob = false) (st : St σ) :
+    withView d f arg st =
+      (getGen st arg).bind (fun gen => gen.map (fun g => ((pureView d f g).1, putGen st arg (pureView d f g).2))) := by
+  unfold withView
   cases hg : getGen st arg with
-  | none => rfl
+  | none => simp
   | some gen =>
     cases gen with
     | none => cases arg <;> simp_all [getGen, RngArg.isGlob]
     | some g =>
-      have hun : useNp c.deps (some g).isNone = false := by simp [useNp, hnp]
-      simp only [hun, hpy, hos, sel, upd, pureCall, Bool.false_eq_true, if_false, Option.bind_some,
+      have hun : useNp d (some g).isNone = false := by simp [useNp, hnp]
+      simp only [hun, hpy, hos, sel, upd, pureView, Bool.false_eq_true, if_false, Option.bind_some,
         Option.map_some]
-      by_cases hr : c.deps.rng = true
+      by_cases hr : d.rng = true
       · simp [hr]
-      · have hr' : c.deps.rng = false := by simpa using hr
+      · have hr' : d.rng = false := by simpa using hr
         simp only [hr', Bool.false_eq_true, if_false]
         rw [putGen_same st arg g hg]
 
+theorem call_explicit (c : Comp σ ο) (hpy : c.deps.py = false) (hnp : c.deps.np = false)
+    (hos : c.deps.os = false) (arg : RngArg) (hng : arg.isGlob = false) (st : St σ) :
+    call c arg st =
+      (getGen st arg).bind (fun gen => gen.map (fun g => ((pureCall c g).1, putGen st arg (pureCall c g).2))) :=
+  withView_explicit c.deps c.sem hpy hnp hos arg hng st
+
 /-! ### the caller's generators are only ever changed by calls that are handed one -/
 
-theorem call_ext_unchanged (c : Comp σ ο) (arg : RngArg) (h : arg.isExt = false) (st st' : St σ) (o : ο)
-    (hc : call c arg st = some (o, st')) : st'.ext = st.ext := by
-  unfold call at hc
+theorem withView_ext_unchanged {α : Type} (d : Deps) (f : View σ → α × View σ) (arg : RngArg) (h : arg.isExt = false) (st st' : St σ) (o : α)
+    (hc : withView d f arg st = some (o, st')) : st'.ext = st.ext := by
+  unfold withView at hc
   cases hg : getGen st arg with
   | none => simp [hg] at hc
   | some gen =>
@@ -371,14 +655,18 @@ theorem call_ext_unchanged (c : Comp σ ο) (arg : RngArg) (h : arg.isExt = fals
     cases gen with
     | none => rfl
     | some g =>
-      by_cases hr : c.deps.rng = true
+      by_cases hr : d.rng = true
       · simp only [hr, if_true]
         cases arg with
         | glob => rfl
         | ext k => simp [RngArg.isExt] at h
         | spawned k => rfl
-      · have hr' : c.deps.rng = false := by simpa using hr
+      · have hr' : d.rng = false := by simpa using hr
         simp [hr']
+
+theorem call_ext_unchanged (c : Comp σ ο) (arg : RngArg) (h : arg.isExt = false) (st st' : St σ) (o : ο)
+    (hc : call c arg st = some (o, st')) : st'.ext = st.ext :=
+  withView_ext_unchanged c.deps c.sem arg h st st' o hc
 
 theorem step_ext_unchanged (P : Prim σ) (op : Op σ ο) (h : op.usesExt = false) (st st' : St σ)
     (o : Out σ ο) (hs : step P op st = some (o, st')) : st'.ext = st.ext := by
@@ -392,6 +680,25 @@ theorem step_ext_unchanged (P : Prim σ) (op : Op σ ο) (h : op.usesExt = false
     obtain ⟨_, rfl⟩ := he
     apply call_ext_unchanged c arg _ st r.2 r.1 (by simpa using hr)
     cases arg <;> simp_all [Op.usesExt, RngArg.isExt]
+  | use c k => simp [Op.usesExt] at h
+  | new c arg =>
+    simp only [step, new, Option.map_eq_some_iff] at hs
+    obtain ⟨r, ⟨w, hw, rfl⟩, he⟩ := hs
+    simp only [Prod.mk.injEq] at he
+    obtain ⟨_, rfl⟩ := he
+    apply withView_ext_unchanged c.ctorDeps c.ctor arg _ st w.2 w.1 (by simpa using hw)
+    cases arg <;> simp_all [Op.usesExt, RngArg.isExt]
+  | setrng c k arg =>
+    simp only [step, setRng, Option.map_eq_some_iff] at hs
+    obtain ⟨r, hr, he⟩ := hs
+    simp only [Prod.mk.injEq] at he
+    obtain ⟨_, rfl⟩ := he
+    split at hr
+    · simp only [Option.map_eq_some_iff] at hr
+      obtain ⟨w, hw, rfl⟩ := hr
+      apply withView_ext_unchanged c.ctorDeps c.ctor arg _ st w.2 w.1 (by simpa using hw)
+      cases arg <;> simp_all [Op.usesExt, RngArg.isExt]
+    · cases hr
 
 /-- one isolated call on a caller generator, from two states holding the same caller generators -/
 theorem step_extIso (P : Prim σ) (op : Op σ ο) (h : op.extIso = true) (st1 st2 m1 : St σ) (o : Out σ ο)
@@ -400,6 +707,9 @@ theorem step_extIso (P : Prim σ) (op : Op σ ο) (h : op.extIso = true) (st1 st
   cases op with
   | seed s => simp [Op.extIso] at h
   | spawn n => simp [Op.extIso] at h
+  | new c arg => simp [Op.extIso] at h
+  | use c k => simp [Op.extIso] at h
+  | setrng c k arg => simp [Op.extIso] at h
   | call c arg =>
     cases arg with
     | glob => simp [Op.extIso] at h
@@ -426,12 +736,12 @@ theorem step_extIso (P : Prim σ) (op : Op σ ο) (h : op.extIso = true) (st1 st
           simp [putGen, hext]
 
 /-- a call writes back at most the one generator it was handed -/
-theorem call_other_generators (c : Comp σ ο) (arg : RngArg) (st st' : St σ) (o : ο)
-    (hc : call c arg st = some (o, st')) :
+theorem withView_other_generators {α : Type} (d : Deps) (f : View σ → α × View σ) (arg : RngArg) (st st' : St σ) (o : α)
+    (hc : withView d f arg st = some (o, st')) :
     (∀ j, arg ≠ .ext j → st'.ext[j]? = st.ext[j]?)
     ∧ (∀ j, arg ≠ .spawned j → st'.spawned[j]? = st.spawned[j]?)
     ∧ st'.ext.length = st.ext.length ∧ st'.spawned.length = st.spawned.length := by
-  unfold call at hc
+  unfold withView at hc
   cases hg : getGen st arg with
   | none => simp [hg] at hc
   | some gen =>
@@ -440,7 +750,7 @@ theorem call_other_generators (c : Comp σ ο) (arg : RngArg) (st st' : St σ) (
     cases gen with
     | none => exact ⟨fun _ _ => rfl, fun _ _ => rfl, rfl, rfl⟩
     | some g =>
-      by_cases hr : c.deps.rng = true
+      by_cases hr : d.rng = true
       · simp only [hr, if_true]
         cases arg with
         | glob => exact ⟨fun _ _ => rfl, fun _ _ => rfl, rfl, rfl⟩
@@ -452,8 +762,15 @@ theorem call_other_generators (c : Comp σ ο) (arg : RngArg) (st st' : St σ) (
           refine ⟨fun _ _ => rfl, fun j hj => ?_, rfl, by simp [putGen]⟩
           have : k ≠ j := fun e => hj (by rw [e])
           simp [putGen, List.getElem?_set_ne this]
-      · have hr' : c.deps.rng = false := by simpa using hr
+      · have hr' : d.rng = false := by simpa using hr
         simp [hr']
+
+theorem call_other_generators (c : Comp σ ο) (arg : RngArg) (st st' : St σ) (o : ο)
+    (hc : call c arg st = some (o, st')) :
+    (∀ j, arg ≠ .ext j → st'.ext[j]? = st.ext[j]?)
+    ∧ (∀ j, arg ≠ .spawned j → st'.spawned[j]? = st.spawned[j]?)
+    ∧ st'.ext.length = st.ext.length ∧ st'.spawned.length = st.spawned.length :=
+  withView_other_generators c.deps c.sem arg st st' o hc
 
 theorem spawnGo_add (P : Prim σ) (n m : Nat) (py : σ) :
     spawnGo P (n + m) py = ((spawnGo P n py).1 ++ (spawnGo P m (spawnGo P n py).2).1,
